@@ -53,9 +53,76 @@ RULES = {
     "C10": "one registry materialised under 12 (policy, id flavour) combinations: integer ids, type_info pointers, "
            "strides, high-bit ids, random 64-bit, many-to-one projection with every alias id carried by objects, "
            "deferred ids; 1-3 updates each; tables compared with the oracle; distinct = registry hash",
+    "C12": "the real generator::write_static_offsets runs on every generated registry; its text is parsed and compared "
+           "position by position with method::slots_strides and the compiler's slots / strides (arity 1-4); methods of "
+           "the static-offsets instance then dispatch with the parsed numbers and are compared with the oracle; under "
+           "checked policies one position is perturbed and the call must raise static_slot_error / static_stride_error "
+           "before any definition runs; a sample of texts is compiled with g++ and clang++; non-trivial = registry "
+           "with a method of arity >= 3",
+    "C13": "the real encode_dispatch_data runs on the compiler object of every generated registry (classes without "
+           "v-table, first used slot != 0, error cells, arity 1-4, classes registered several times); the text is "
+           "parsed, declared sizes checked, and the real decode_dispatch_data<Policy, Data> runs on a Data of checked "
+           "iterator proxies (bounds per array, no store over an unread code) in a world whose installed tables were "
+           "forgotten; calls after decode must equal calls after update; samples compiled verbatim with g++ and "
+           "clang++; distinct = (registry, world) with >= 1 method",
+    "C14": "2-3 policies (among checked/fast hash, map, indirect) share one table of class ids but hold different "
+           "registries; random interleavings of 8-40 operations (register+update, update, unregister+update, unregister "
+           "everything, change error handler, exhaust the hash search, calls with errors); after every operation on one "
+           "policy the observable state digest (catalog sizes, dispatch data, hash parameters, v-table pointers, "
+           "handler identities, slots, next), the complete behaviour table and calls through virtual_ptrs created "
+           "earlier of every other policy must be unchanged and still equal the oracle; distinct = distinct operation logs",
+    "C15": "checked policies only; each class in turn is left out of an otherwise legal registry: as listed base, "
+           "method parameter, definition parameter (update must report unknown_class_error with that class's id) or, "
+           "for leaves, as the dynamic class of an argument at each virtual position through every route (reference, "
+           "pointer, shared_ptr, virtual_ptr from exact static type / from base reference / converted / copied / moved / "
+           "final); no definition event and no null v-table pointer may precede the report; final on every other "
+           "dynamic class must give method_table_error; distinct = (registry, class left out)",
     "C17": "update report flags compared with exhaustive oracle enumeration over all tuples of acceptable classes "
            "(all / concrete only), cells compared with the tables built; non-trivial = registry with >= 1 method",
 }
+
+
+def compile_emitted(check):
+    """C12 / C13: the text the generator emitted for the first cases of every job is compiled
+    verbatim (g++ and clang++, -fsyntax-only, templates instantiated)"""
+    import glob, os, subprocess
+    import vfbuild
+    emit = os.path.join(check.outdir, "emit")
+    files = sorted(glob.glob(os.path.join(emit, "*.inc")))[:(6 if check.tier == "quick" else 24)]
+    jobs = []
+    for f in files:
+        wrapper = f[:-4] + ".cpp"
+        with open(wrapper, "w") as w:
+            w.write('#include "world_impl.hpp"\nusing namespace vf;\n')
+            if os.path.basename(f).startswith("offsets-"):
+                w.write('#include "%s"\n' % f)
+            else:
+                w.write('void vf_emitted() {\n#include "%s"\n}\n' % f)
+        for cxx in ("g++", "clang++-14"):
+            jobs.append((cxx, wrapper, f))
+
+    def run(j):
+        cxx, wrapper, f = j
+        cmd = [cxx, "-std=c++17", "-fsyntax-only", "-w", "-I%s/include" % vfbuild.repo_dir(), "-I" + vfbuild.HARNESS,
+               "-D" + vfbuild.GUARD, wrapper]
+        p = subprocess.run(cmd, stdout=subprocess.PIPE, stderr=subprocess.STDOUT, text=True)
+        return j, p.returncode, p.stdout
+    from concurrent.futures import ThreadPoolExecutor
+    with ThreadPoolExecutor(max_workers=12) as ex:
+        for (cxx, wrapper, f), rc, out in ex.map(run, jobs):
+            check.extra_evaluations += 1
+            check.extra_hist["emitted-text-compiled." + cxx] = check.extra_hist.get("emitted-text-compiled." + cxx, 0) + 1
+            if rc != 0:
+                log = wrapper + "." + cxx + ".log"
+                open(log, "w").write(out[-8000:])
+                check.extra_violations.append(("%s:emitted-text-does-not-compile:%s" % (check.prop, cxx), wrapper))
+
+
+def clean_emit(check):
+    import os, shutil
+    emit = os.path.join(check.outdir, "emit")
+    shutil.rmtree(emit, ignore_errors=True)
+    os.makedirs(emit, exist_ok=True)
 
 
 def harness_plan(prop, tier, quick, thorough, min_eval=1000, policy=None, extra=None, salt=0, level="exploration",
@@ -93,6 +160,20 @@ def plan(prop, tier):
         return harness_plan(prop, tier, [("rel", 10, 150), ("asan", 6, 40)], [("rel", 14, 5000), ("asan", 14, 1200)])
     if prop == "C10":
         return harness_plan(prop, tier, [("rel", 10, 100), ("asan", 6, 25)], [("rel", 14, 4000), ("asan", 14, 900)])
+    if prop == "C12":
+        c = harness_plan(prop, tier, [("rel", 10, 300), ("asan", 6, 80)], [("rel", 14, 10000), ("asan", 14, 2500)])
+        clean_emit(c)
+        c.post = compile_emitted
+        return c
+    if prop == "C13":
+        c = harness_plan(prop, tier, [("rel", 10, 250), ("asan", 6, 60)], [("rel", 14, 8000), ("asan", 14, 2000)])
+        clean_emit(c)
+        c.post = compile_emitted
+        return c
+    if prop == "C14":
+        return harness_plan(prop, tier, [("rel", 10, 60), ("asan", 6, 15)], [("rel", 14, 2500), ("asan", 14, 500)])
+    if prop == "C15":
+        return harness_plan(prop, tier, [("rel", 10, 200), ("asan", 6, 60)], [("rel", 14, 8000), ("asan", 14, 2000)])
     if prop == "C17":
         return harness_plan(prop, tier, [("rel", 10, 500), ("asan", 4, 150)], [("rel", 14, 15000), ("asan", 10, 3000)])
     return None
